@@ -12,9 +12,12 @@ mod eng;
 mod families;
 mod monitors;
 mod ops;
+mod picker;
 mod refchess;
 mod report;
+mod searchchk;
 mod seefam;
+mod session;
 mod sweep;
 mod util;
 mod checks;
